@@ -554,7 +554,7 @@ func (nfs *Nfs) doRemove(dfh nfstypes.Nfs_fh3, name nfstypes.Filename3, isdir bo
 		util.DPrintf(0, "Remove not a directory %v\n", inodes[0].Kind)
 		return op, nfstypes.NFS3ERR_INVAL
 	}
-	if isdir && !dir.IsDirEmpty(inodes[0], op) {
+	if inodes[0].Kind == nfstypes.NF3DIR && !dir.IsDirEmpty(inodes[0], op) {
 		return op, nfstypes.NFS3ERR_INVAL
 	}
 	ok := dir.RemName(inodes[1], op, name)
